@@ -568,6 +568,48 @@ def r18_9(prog, rep, rid="R18.9"):
         rep.ok(rid, key, f.loc(), "%d whole-second durations survive print and parse (units, letters, T and sign agree on both sides)" % n)
 
 
+
+def r18_10(prog, rep, rid="R18.10"):
+    """The date part of an instant (`dpart`: day, month, year in one 32-bit word) carries the scale tag in the top four bits of the year
+    and the zone tag in the top bits of month and day.  A constant mask applied to it may clear tag bits and nothing else — a mask that
+    also clears a bit of the year, month or day proper changes the date of every instant that has that bit set (years from 2048)."""
+    sm = prog.macro_int("ECHS_SMASK", "scale.h")
+    dm = prog.macro_int("ECHS_DMASK", "tzob.h")
+    if sm is None or dm is None:
+        raise AnalysisBroken("ECHS_SMASK / ECHS_DMASK not found")
+    tags = (sm | dm) & 0xffffffff
+    n = 0
+    for f in prog.all_fns():
+        if not f.cfg:
+            continue
+        for b, i, x, line in f.cfg.all_elems():
+            if not isinstance(x, dict):
+                continue
+            for q in walk(f.cfg.resolve(x)):
+                if q.get("k") != "bin" or q["op"] not in ("&", "&="):
+                    continue
+                for ls, rs in (("l", "r"), ("r", "l")):
+                    if not lv(strip_casts(q[ls])).endswith("dpart"):
+                        continue
+                    C = const_eval(f, q[rs])
+                    if C is None:
+                        continue
+                    C &= 0xffffffff
+                    cleared = ~C & 0xffffffff
+                    if q["op"] == "&" and cleared & ~tags == (~tags & 0xffffffff):
+                        continue        # `dpart & TAGMASK`: reading the tag, not masking the date
+                    n += 1
+                    key = "%s/date-part-mask@%#x" % (f.name, C)
+                    if cleared & ~tags:
+                        rep.fail(rid, key, f.loc(q.get("line", line)), "the date part is masked with %#010x, which clears %#x beyond the scale and zone tags (%#010x): "
+                                 "bits of the year/month/day themselves — instants with such a bit set print (and read back) as another date" % (
+                                     C, cleared & ~tags, tags))
+                    else:
+                        rep.ok(rid, key, f.loc(q.get("line", line)), "clears tag bits only (%#x)" % cleared)
+    if n < 2:
+        rep.broken_("rule=%s expected the two detach masks on the date part, found %d" % (rid, n))
+
+
 def run(prog, rep, tier, snap):
     rep.rule("R18.1", "64-bit accumulation in the duration parser", 2)
     rep.call(r18_1, prog, rep)
@@ -575,6 +617,8 @@ def run(prog, rep, tier, snap):
     rep.call(r18_8, prog, rep)
     rep.rule("R18.9", "what the duration printer writes reads back as the same number of milliseconds", 1)
     rep.call(r18_9, prog, rep)
+    rep.rule("R18.10", "masks on an instant's date part clear tag bits only", 2)
+    rep.call(r18_10, prog, rep)
     rep.rule("R18.5", "the duration printer does not drop what is left below its smallest unit", 1)
     rep.call(r18_5, prog, rep)
     rep.rule("R18.4", "the instant parser's default window covers the printers' longest output", 2)
